@@ -390,6 +390,40 @@ public class BlogController {
     }
 }
 `},
+	{"UrlReader", "uses-unimported-type-a.Url", `package a;
+
+public class UrlReader {
+    private Url target;
+
+    public void read() {
+        target.open();
+    }
+}
+`},
+	{"URLWriter", "uses-unimported-type-b.URL", `package b;
+
+public class URLWriter {
+    private URL target;
+
+    public void write() {
+        target.open();
+    }
+}
+`},
+	{"Url", "type-a.Url", `package a;
+
+public class Url {
+    public void open() {
+    }
+}
+`},
+	{"URL", "type-b.URL-differs-from-a.Url-in-case-only", `package b;
+
+public class URL {
+    public void open() {
+    }
+}
+`},
 	{"Blank", "zero-byte-file", ""},
 	{"OnlyComments", "comments-only-file", "// nothing is declared in this file\n/* TODO: or ever */\n\n"},
 }
@@ -650,7 +684,7 @@ func init() {
 	engine.Register(&engine.Spec{
 		ID:    "C07",
 		Title: "A file's analysis result is independent of other files, order and repetition",
-		Rule: "X2 explicit-state BFS over operation sequences from the pristine process state; operations = run one pass (identifier, full, bad-smell, API) on one of 32 residue-leaving files, or build the call / reverse-call / lookup graph of a cyclic model; " +
+		Rule: "X2 explicit-state BFS over operation sequences from the pristine process state; operations = run one pass (identifier, full, bad-smell, API) on one of 36 residue-leaving files, or build the call / reverse-call / lookup graph of a cyclic model; " +
 			"state = canonical dump of every package-level variable of coca's packages (auto-discovered), de-duplicated by hash; invariant on every transition: the operation's observable result equals its result in a pristine process. " +
 			"Per-pass alphabets are explored deeper than the mixed alphabet. Non-trivial = transition from a non-pristine state.",
 		Assumptions: []string{
